@@ -14,6 +14,30 @@ CLAIMED = {
         technique="call-graph reachability over resolved MIR (rustc_private driver) + dominance/provenance guards",
         design_ref="DESIGN.md section 4 C01, section 3 K1",
     ),
+    "C05": dict(
+        level="other",
+        text="Static rules over the parse-reachable function set: no value-changing numeric cast and no undischarged overflow assert may exist there; every Token::Float construction is dominated by the finite side of is_finite on the same value; lexical Overflow/Underflow map to nom::Err::Failure; lexical float options must not be lossy. Decides that literal-derived values cannot be wrapped/truncated/backtracked on any input; the digit-to-value computation inside `lexical` is trusted.",
+        technique="who-may-cast / guard-dominance rules over resolved MIR on the monomorphic parse call graph",
+        design_ref="DESIGN.md section 4 C05",
+    ),
+    "C08": dict(
+        level="other",
+        text="Effect confinement + container typing: every HashMap/HashSet iteration call in functions reachable from the serialization entry points must end in an order-insensitive consumer; every listed Program store must have a hash-free type; no order-disturbing container call acts on a store under add_instruction; CalibrationSet::replace overwrites in place. Decides independence of output from hash order and positional stability of redefinitions for all programs; trusts IndexMap/Vec semantics.",
+        technique="call-graph reachability + consumer-chain dataflow over MIR; type-containment query over ADT definitions",
+        design_ref="DESIGN.md section 4 C08",
+    ),
+    "C09": dict(
+        level="other",
+        text="Sibling agreement: to_instructions and into_instructions (and every local type with both) are abstracted to the ordered list of self stores appended (provenance of each extend argument) and must be equal; the stores add_instruction mutates equal the stores listed; each variant's routing is matched by what the listing section re-creates; only order-preserving loss-free adaptors lie between a store and the output. Decides section order/coverage for all programs; does not execute either listing.",
+        technique="MIR provenance (origin expressions) + HIR match-arm routing table, compared between sibling functions",
+        design_ref="DESIGN.md section 4 C09",
+    ),
+    "C10": dict(
+        level="other",
+        text="Cache-mirroring rules for Program::used_qubits: every addition to a qubit-bearing store is accompanied by a cache update on all paths (CFG must-pass-through); Program literals with an empty cache and a kept qubit-bearing store must be rebuilt; get_qubits / get_qubits_mut must read every Qubit-holding field of every Instruction variant in an explicit arm (type-directed coverage). Necessary conditions of 'cache equals qubits mentioned'; removals/histories are not tracked.",
+        technique="type-directed match coverage (ADT containment x HIR arms x MIR field reads) + who-writes enumeration with dominance",
+        design_ref="DESIGN.md section 4 C10",
+    ),
 }
 
 NOT_APPLICABLE = {
